@@ -60,7 +60,7 @@ package vanguard
 //@ func grpcEncodeTimeout
 //@   opt arith=checked
 //@   ensures[C12] timeout <= 0 ==> result == "0n"
-//@   ensures[C12] timeout > 0 ==> gsyntax(result)
+//@   ensures[C12,C02] timeout > 0 ==> gsyntax(result)
 //@   ensures[C12] timeout > 0 ==> gvalue(result) <= timeout && timeout - gvalue(result) < gunit(result[len(result)-1])
 
 //@ axiom errNoTimeout != nil
@@ -612,6 +612,7 @@ package vanguard
 //@   modifies blen(dst), blen(src)
 
 //@ func (*compressionPool).decompressLimit
+//@   atcall[C01,C10] io.LimitReader: arg(1) == limit + 1
 //@   requires dst != nil && src != nil
 //@   requires[C14] owned(dst) && owned(src)
 //@   track gets = (*sync.Pool).Get
@@ -653,6 +654,7 @@ package vanguard
 //@ pred readerOK(r) = r != nil && extern(r) && !typeIs(r, *bytes.Buffer) && (typeIs(r, *io.LimitedReader) ==> unbox(r, *io.LimitedReader) != nil)
 
 //@ func (*operation).readRequestMessage
+//@   ensures[C01,C02] o.clientEnveloper == nil ==> msg.wasCompressed == (o.client.reqCompression != nil) && msg.isRequest
 //@   dispatch (io.Reader).Read: none
 //@   requires validOp(o) && prepOK(o) && msg != nil && readerOK(reader) && (rw != nil ==> rwInv(rw) && rw.op == o)
 //@   requires[C14] ownMsg(msg)
@@ -751,7 +753,7 @@ package vanguard
 // C12: Connect and REST timeouts
 
 //@ func connectEncodeTimeout
-//@   ensures[C12] timeout >= 0 ==> isdigits(result) && len(result) >= 1 && len(result) <= 10
+//@   ensures[C12,C02] timeout >= 0 ==> isdigits(result) && len(result) >= 1 && len(result) <= 10
 //@   ensures[C12] timeout >= 0 ==> decval(result) * 1000000 <= timeout
 //@   ensures[C12] timeout >= 0 && timeout < 10000000000 * 1000000 ==> timeout - decval(result) * 1000000 < 1000000
 //@   ensures[C12] timeout >= 10000000000 * 1000000 ==> result == "9999999999"
@@ -875,6 +877,7 @@ package vanguard
 // validTR (C03, C08, C09, C10, C16), exactly one dispatch or one error report (C18), and the shape of
 // the request the backend sees (C02).
 //@ func (*operation).handle
+//@   atcall[C02,C01] (*message).advanceToStage: reqMsg.isRequest && (o.clientEnveloper == nil ==> reqMsg.wasCompressed == (o.client.reqCompression != nil))
 //@   dispatch (net/http.Handler).ServeHTTP: opaque
 //@   requires validOp(o) && o.isValid && validReq(o.request) && o.writer != nil && extern(o.writer) && !typeIs(o.writer, *bytes.Buffer) && o.cancel != nil && o.request.ContentLength == -1
 //@   requires o.clientEnveloper == nil && o.serverEnveloper == nil && o.clientPreparer == nil && o.serverPreparer == nil && !o.clientReqNeedsPrep && !o.clientRespNeedsPrep && !o.serverReqNeedsPrep && !o.serverRespNeedsPrep
@@ -1181,3 +1184,13 @@ package vanguard
 //@   ensures[C04,C03] old(hdrCount(headers, "Grpc-Status")) > 0 ==> result.end != nil && result.end.httpCode == statusCode
 //@   ensures[C04,C03] statusCode == 200 && old(hdrCount(headers, "Grpc-Status")) == 0 ==> result.end == nil
 //@   ensures[C02,C03] result.compression == old(hdr(headers, "Grpc-Encoding"))
+
+// C12: the REST form of a timeout is the exact number of seconds (no rounding before formatting).
+//@ func restEncodeTimeout
+//@   atcall[C12] (time.Duration).Seconds: arg(0) == timeout
+//@   ensures[C12] timeout == 0 ==> result == ""
+// C01 / C02: a REST backend gets a body exactly when the rule names one ("*" included: an empty,
+// non-nil field list), with the rule's own HTTP method.
+//@ func (restServerProtocol).requestLine
+//@   opt implicit=assume
+//@   ensures[C01,C02] err == nil ==> includeBody == (len(op.restTarget.requestBodyFields) > 0 || op.restTarget.requestBodyFields != nil) && method == op.restTarget.method
